@@ -126,19 +126,38 @@ Section AllFeatures.
 End AllFeatures.
 
 (* ================= aa: records through merge, sort and duplicate removal ================= *)
-(* the duplicate removal only drops start-abutting deletions and records equal to the last kept one: every other
+(* the duplicate removal only drops start-abutting deletions and records equal to one kept earlier: every other
    variant of the sorted list is still in the output *)
-Lemma dedupe_keeps l : forall prev v, In v (map fst l) ->
+Lemma dedupe_keeps l : forall seen v, In v (map fst l) ->
   (match v_kind v with KDel => (v_pos v =? 0)%Z | _ => false end) = false ->
-  In v (map fst (dedupe prev l)) \/ prev = Some v.
+  In v (map fst (dedupe seen l)) \/ In v seen.
 Proof.
-  induction l as [|x t IH]; intros prev v Hin Hd; [contradiction|]. cbn [map] in Hin. cbn [dedupe].
+  induction l as [|x t IH]; intros seen v Hin Hd; [contradiction|]. cbn [map] in Hin. cbn [dedupe].
   destruct ((match v_kind (fst x) with KDel => true | _ => false end) && (v_pos (fst x) =? 0)%Z) eqn:Edel.
-  - destruct Hin as [<-|Hin]; [|apply (IH prev v Hin Hd)]. exfalso. destruct (v_kind (fst x)); cbn in Edel; try discriminate. rewrite Edel in Hd. discriminate.
-  - destruct (match prev with Some p => variant_eqb (fst x) p | None => false end) eqn:Edup.
-    + destruct Hin as [<-|Hin]; [|apply (IH prev v Hin Hd)]. right. destruct prev as [p|]; [|discriminate]. apply variant_eqb_eq in Edup. rewrite Edup. reflexivity.
+  - destruct Hin as [<-|Hin]; [|apply (IH seen v Hin Hd)]. exfalso. destruct (v_kind (fst x)); cbn in Edel; try discriminate. rewrite Edel in Hd. discriminate.
+  - destruct (existsb (variant_eqb (fst x)) seen) eqn:Edup.
+    + destruct Hin as [<-|Hin]; [|apply (IH seen v Hin Hd)]. right. apply existsb_exists in Edup as (pv & Hpv & E). apply variant_eqb_eq in E. rewrite E. exact Hpv.
     + cbn [map]. destruct Hin as [<-|Hin]; [left; left; reflexivity|].
-      destruct (IH (Some (fst x)) v Hin Hd) as [H|H]; [left; right; exact H|]. injection H as <-. left. left. reflexivity.
+      destruct (IH (fst x :: seen) v Hin Hd) as [H|[<-|H]]; [left; right; exact H|left; left; reflexivity|right; exact H].
+Qed.
+Lemma variant_eqb_refl v : variant_eqb v v = true.
+Proof. unfold variant_eqb. rewrite !Z.eqb_refl, !list_eqb_refl, !Nat.eqb_refl. reflexivity. Qed.
+(* ... and it leaves no record twice, whatever the annotation (repair D20) *)
+Lemma dedupe_fresh l : forall seen v, In v (map fst (dedupe seen l)) -> ~ In v seen.
+Proof.
+  induction l as [|x t IH]; intros seen v H; cbn [dedupe] in H; [contradiction|].
+  destruct (_ && _); [apply IH; exact H|].
+  destruct (existsb (variant_eqb (fst x)) seen) eqn:Edup; [apply IH; exact H|].
+  cbn [map] in H. destruct H as [<-|H].
+  - intros Hin. assert (existsb (variant_eqb (fst x)) seen = true); [|congruence].
+    apply existsb_exists. exists (fst x). split; [exact Hin|apply variant_eqb_refl].
+  - intros Hin. apply (IH (fst x :: seen) v H). right. exact Hin.
+Qed.
+Lemma dedupe_nodup l : forall seen, NoDup (map fst (dedupe seen l)).
+Proof.
+  induction l as [|x t IH]; intros seen; cbn [dedupe]; [constructor|].
+  destruct (_ && _); [apply IH|]. destruct (existsb (variant_eqb (fst x)) seen); [apply IH|].
+  cbn [map]. constructor; [|apply IH]. intros H. apply (dedupe_fresh t (fst x :: seen) (fst x) H). left; reflexivity.
 Qed.
 
 Section AaFinal.
@@ -170,8 +189,15 @@ Section AaFinal.
     - intros Hv. apply in_map_iff in Hv. destruct Hv as (x & <- & Hx). apply dedupe_sub in Hx. apply (proj1 (VariantsProofs.ssort_In t_lt L x)) in Hx.
       apply in_map. exact Hx.
     - intros Hv. apply in_map_iff in Hv. destruct Hv as (x & <- & Hx).
-      destruct (dedupe_keeps (ssort (variant * list nat) t_lt L) None (fst x)) as [Hd|Hd]; [| |exact Hd|discriminate].
+      destruct (dedupe_keeps (ssort (variant * list nat) t_lt L) [] (fst x)) as [Hd|[]]; [| |exact Hd].
       + apply in_map. apply (proj2 (VariantsProofs.ssort_In t_lt L x)). exact Hx.
       + rewrite Hk. reflexivity.
   Qed.
 End AaFinal.
+
+(* the mutation list of a sequence never holds a record twice: any reference, query, regions (repair D20) *)
+Theorem final_list_nodup ref que gs inter out : variants_pair_traced ref que gs inter = Ok out -> NoDup (map fst out).
+Proof.
+  unfold variants_pair_traced. destruct (all_aas ref que (ref_to_msa ref) gs) as [aas| |]; try discriminate.
+  cbn [bind]. intros [= <-]. apply dedupe_nodup.
+Qed.
